@@ -235,9 +235,67 @@ fn map_slot(f: usize, k: u64) -> (Vec<u8>, [u8; 32]) {
 }
 
 const KEYS: &[u64] = &[0, 1, 2, 5, 255, u64::MAX];
-const LENS: &[u64] = &[0, 1, 7, 31, 32, 33, 64, 70, 100];
+const LENS: &[u64] = &[0, 0, 0, 1, 7, 31, 32, 33, 64, 70, 100];
 
 fn gen_v(r: &mut Rng) -> u64 { match r.below(6) { 0 => 0, 1 => u64::MAX, 2 => r.below(300), _ => r.next() } }
+
+/// Scripted motifs around EMPTY values (empty slice after a non-empty one, clear then read, vector
+/// drained / cleared and reused, pops and gets on an empty vector, map entry removed twice and
+/// re-inserted); `lens` tracks vector lengths for the random ops that follow.
+fn gen_motif(r: &mut Rng, lens: &mut [u64; 9], ops: &mut Vec<Op>) {
+    match r.below(8) {
+        0 => { // non-empty slice overwritten by the empty one, then by a shorter one
+            let f = *r.pick(&[6usize, 7, 8]);
+            let big = *r.pick(&[33u64, 64, 70, 100]);
+            ops.push(Op::BWrite(f, big, r.below(256))); ops.push(Op::BRead(f));
+            ops.push(Op::BWrite(f, 0, r.below(256))); ops.push(Op::BRead(f)); ops.push(Op::BLen(f));
+            if r.chance(1, 2) { ops.push(Op::BWrite(f, *r.pick(&[1u64, 7, 31, 32]), r.below(256))); ops.push(Op::BRead(f)); ops.push(Op::BLen(f)); }
+        }
+        1 => { // clear then read, then reuse
+            let f = *r.pick(&[6usize, 7, 8]);
+            if r.chance(2, 3) { ops.push(Op::BWrite(f, *r.pick(LENS), r.below(256))); }
+            ops.push(Op::BClear(f)); ops.push(Op::BRead(f)); ops.push(Op::BLen(f));
+            ops.push(Op::BWrite(f, *r.pick(&[0u64, 1, 32, 33]), r.below(256))); ops.push(Op::BRead(f));
+        }
+        2 => { // empty written first (fresh field), neighbours untouched
+            let f = *r.pick(&[6usize, 7, 8]);
+            ops.push(Op::BWrite(f, 0, 0)); ops.push(Op::BRead(f)); ops.push(Op::BLen(f));
+            ops.push(Op::BRead(6 + (f - 6 + 1) % 3)); ops.push(Op::BClear(f)); ops.push(Op::BLen(f));
+        }
+        3 => { // vector filled, drained by pops, popped once more, reused
+            let f = *r.pick(&[0usize, 1, 2]);
+            let k = 1 + r.below(4);
+            for _ in 0..k { ops.push(Op::VPush(f, gen_v(r))); lens[f] += 1; }
+            while lens[f] > 0 { ops.push(Op::VPop(f)); lens[f] -= 1; }
+            ops.push(Op::VPop(f)); ops.push(Op::VLen(f)); ops.push(Op::VGet(f, 0));
+            ops.push(Op::VPush(f, gen_v(r))); lens[f] += 1; ops.push(Op::VGet(f, 0)); ops.push(Op::VLen(f));
+        }
+        4 => { // vector cleared and reused
+            let f = *r.pick(&[0usize, 1, 2]);
+            let k = r.below(4);
+            for _ in 0..k { ops.push(Op::VPush(f, gen_v(r))); lens[f] += 1; }
+            ops.push(Op::VClear(f)); lens[f] = 0;
+            ops.push(Op::VGet(f, 0)); ops.push(Op::VLen(f)); ops.push(Op::VPop(f));
+            ops.push(Op::VPush(f, gen_v(r))); lens[f] += 1; ops.push(Op::VGet(f, 0)); ops.push(Op::VGet(f, 1));
+        }
+        5 => { // vector emptied by remove / swap_remove, insert at 0 into the empty vector
+            let f = *r.pick(&[0usize, 1, 2]);
+            while lens[f] > 0 { if r.chance(1, 2) { ops.push(Op::VRemove(f, 0)); } else { ops.push(Op::VSwapRm(f, lens[f] - 1)); } lens[f] -= 1; if ops.len() > 40 { break; } }
+            ops.push(Op::VPush(f, gen_v(r))); ops.push(Op::VRemove(f, 0));
+            ops.push(Op::VLen(f)); ops.push(Op::VInsert(f, 0, gen_v(r))); lens[f] += 1; ops.push(Op::VGet(f, 0)); ops.push(Op::VLen(f));
+        }
+        6 => { // untouched collections read as empty
+            ops.push(Op::VLen(*r.pick(&[0usize, 1, 2]))); ops.push(Op::VPop(*r.pick(&[0usize, 1, 2])));
+            ops.push(Op::BRead(*r.pick(&[6usize, 7, 8]))); ops.push(Op::MGet(*r.pick(&[3usize, 4, 5]), *r.pick(KEYS)));
+        }
+        _ => { // map entry removed twice and re-inserted; zero value is a present value
+            let f = *r.pick(&[3usize, 4, 5]);
+            let k = *r.pick(KEYS);
+            ops.push(Op::MInsert(f, k, 0)); ops.push(Op::MGet(f, k)); ops.push(Op::MRemove(f, k)); ops.push(Op::MGet(f, k));
+            ops.push(Op::MRemove(f, k)); ops.push(Op::MInsert(f, k, gen_v(r))); ops.push(Op::MGet(f, k));
+        }
+    }
+}
 
 fn gen_history(r: &mut Rng, maxops: u64) -> Vec<Op> {
     let nops = 3 + r.below(maxops - 2);
@@ -249,7 +307,10 @@ fn gen_history(r: &mut Rng, maxops: u64) -> Vec<Op> {
     let mut lens = [0u64; 9];
     let mut ops = vec![];
     let end_with_revert = r.chance(1, 10);
+    // one or two motifs around empty values in 3 of 5 histories (before / in the middle of the random calls)
+    let motif_at: Vec<u64> = if r.chance(3, 5) { if r.chance(1, 3) { vec![0, nops / 2] } else { vec![r.below(nops)] } } else { vec![] };
     for n in 0..nops {
+        if motif_at.contains(&n) { gen_motif(r, &mut lens, &mut ops); }
         let cls = match mode { 0 => if r.chance(4, 5) { 0 } else { r.below(4) }, 1 => if r.chance(4, 5) { 1 } else { r.below(4) }, 2 => if r.chance(4, 5) { 2 } else { r.below(4) }, _ => r.below(4) };
         let last = n + 1 == nops;
         match cls {
@@ -411,7 +472,7 @@ fn main() {
             }
         }
         let mut r = Rng::new(seed.wrapping_mul(2_000_003).wrapping_add(idx));
-        while hists.len() < nh { hists.push(gen_history(&mut r, 25)); }
+        while hists.len() < nh { hists.push(gen_history(&mut r, 20)); }
         match run_pkg(&hists, &format!("{seed}-{idx}")) {
             Ok(lines) => { std::fs::write(&v[5], lines.join("\n") + "\n").unwrap(); std::process::exit(0); }
             Err(e) => { eprintln!("sv_c28 worker seed={seed} idx={idx}: {e}"); std::process::exit(3); }
@@ -419,7 +480,7 @@ fn main() {
     }
     let a = args();
     let seed = seed_from_env();
-    let per: usize = std::env::var("SV_C28_PER_PKG").ok().and_then(|s| s.parse().ok()).unwrap_or(40);
+    let per: usize = std::env::var("SV_C28_PER_PKG").ok().and_then(|s| s.parse().ok()).unwrap_or(45);
     let npk = ((a.n + per - 1) / per).max(1);
     let par: usize = std::env::var("VERIF_JOBS").ok().and_then(|s| s.parse().ok()).unwrap_or(4);
     let exe = std::env::current_exe().unwrap();
